@@ -49,6 +49,10 @@ def make(name, clients, client_of, lookups, h, prefix, size_a, size_b, served, m
            'OvertakenFlush == \\E j \\in 1..Len(hist) : hist[j].op = "WriteConfig" /\\ ~hist[j].conflict /\\',
            '    \\E i \\in 1..(j - 1) : hist[i].op = "Hook" /\\ hist[i].point = "install" /\\ hist[i].ok /\\ hist[i].t = hist[j].t /\\ hist[i].n < hist[j].old.n /\\',
            '        ~\\E k \\in (i + 1)..(j - 1) : hist[k].op = "Hook" /\\ hist[k].point = "install" /\\ hist[k].ok /\\ hist[k].t = hist[j].t',
+           # a split view meets concurrency inside one client: responses from two timelines and an install that had to be retried
+           'ForkRace == (\\E i \\in 1..Len(hist) : hist[i].op = "Hook" /\\ hist[i].point = "install" /\\ ~hist[i].ok) /\\',
+           '    \\E i, j \\in 1..Len(hist) : hist[i].op = "ReadRemote" /\\ hist[j].op = "ReadRemote" /\\ hist[i].data.kind = "resp" /\\ hist[j].data.kind = "resp" /\\',
+           '        hist[i].data.head.tl # hist[j].data.head.tl',
            'ScenView == <<View, %s>>' % (scenario or "TRUE"),
            'Emit == (AllDone /\\ %s) => PrintT(ToJson([w |-> "client", k |-> "%s",' % (emit_cond, kind),
            '    in |-> [h |-> H, prefix |-> Prefix, sizeA |-> SizeA, sizeB |-> SizeB, served |-> InitServed, cfg0 |-> hist[1].head,',
@@ -191,6 +195,18 @@ def c13_configs(tier):
                 cfgs.append(dict(clients=["c1"], client_of={"t1": "c1"}, lookups={"t1": [0, 1, 0]}, h=h, prefix=p, size_a=na, size_b=nb,
                                  served={"A": p + 1, "B": p + 1}, serve_tls=("A", "B"), max_switch=2, max_grow=2, max_restarts=1,
                                  init_cfgs=[None]))
+    return cfgs
+
+
+def c13_scenario_configs(tier):
+    """A split-view server and two goroutines of one client (schedules, replayed deterministically)."""
+    q = tier == "quick"
+    cfgs = []
+    for (p, na, nb) in ([(1, 2, 3), (1, 3, 2)] if q else [(1, 2, 3), (1, 3, 2), (1, 3, 3), (2, 3, 4), (0, 2, 2), (2, 4, 3)]):
+        top = min(na, nb) - 1
+        cfgs.append(dict(clients=["c1"], client_of={"t1": "c1", "t2": "c1"}, lookups={"t1": [top], "t2": [0]}, h=2, prefix=p, size_a=na, size_b=nb,
+                         served={"A": na, "B": nb}, serve_tls=("A", "B"), max_switch=1, coarse=False, tile_detail=False, kind="schedule",
+                         scenario="ForkRace", emit_cond="ForkRace"))
     return cfgs
 
 
